@@ -1,18 +1,96 @@
----- MODULE GenV ----
+-------------------------------- MODULE GenV --------------------------------
+(* Generation instance for property C17, top-N and best-fit voting: one JSON line   *)
+(* per case [str, sc, maxd, minv, topn, best, contest, cut] where                     *)
+(*   str   the stream in a canonical order (the harness permutes it), entries          *)
+(*         [q, t, am, fd]: integer distance fd (-1 = no distance), real value fd / sc  *)
+(*   topn  [N -> [q -> <<track, weight>> list]]   for every N in 1..NT                 *)
+(*   best  [q -> <<winner, weight>> list]         (winner = q: the track went elsewhere)*)
+(*   contest = 1 iff >= 2 queries claim one track; cut = 1 iff some query has more       *)
+(*         eligible tracks than some emitted N.                                        *)
+(* Only weight-tie-free streams are emitted (the property accepts ties either way).   *)
+(*                                                                                    *)
+(* Mode "enum": every stream over NQ queries x NT tracks with a bag of 0..PerPair      *)
+(*   distances from Dists per pair, every maxd in MaxDs and minv in 1..PerPair.         *)
+(*   Sym = TRUE keeps one representative per permutation of the tracks (bags of the     *)
+(*   first query non-decreasing along the tracks).  Two-stage Next: first query's bags, *)
+(*   then the rest.                                                                    *)
+(* Mode "sim": for `tlc -simulate`: streams over 6 x 6 pairs with up to 5 distances     *)
+(*   per pair from 0..400 (and none), grown entry by entry; emitted at SimLens.         *)
 EXTENDS Voting, Json
-VARIABLES str, maxd, minv, N, done
-Qs == {101, 102}
-Ts == {1, 2}
-Ent == [q : Qs, t : Ts, am : {0}, fd : {1, 3, 5}]
-GInit == /\ str \in UNION {[1..n -> Ent] : n \in 2..4} /\ maxd \in {2, 4} /\ minv \in {1, 2} /\ N \in {1, 2} /\ done = FALSE
-         /\ \A i \in DOMAIN str : i > 1 => (str[i-1].q < str[i].q \/ (str[i-1].q = str[i].q /\ str[i-1].t <= str[i].t))   \* canonical order; harness permutes
-         /\ TieFree(str, maxd, minv)
-GNext == done = FALSE /\ done' = TRUE /\ UNCHANGED <<str, maxd, minv, N>>
-RECURSIVE SortByW(_, _)
-SortByW(q, S) == IF S = {} THEN <<>> ELSE LET t == CHOOSE x \in S : \A y \in S : Weight(str, q, y, maxd) <= Weight(str, q, x, maxd) IN <<t>> \o SortByW(q, S \ {t})
-El(q) == {t \in Ts : <<q, t>> \in Claims(str, maxd, minv)}
-Cut(s) == IF Len(s) > N THEN SubSeq(s, 1, N) ELSE s
-Emit == done => PrintT(<<"REPLAY", ToJson([kind |-> "vote", str |-> str, maxd |-> maxd, minv |-> minv, n |-> N,
-          topn |-> [q \in Qs |-> [i \in DOMAIN Cut(SortByW(q, El(q))) |-> <<Cut(SortByW(q, El(q)))[i], Weight(str, q, Cut(SortByW(q, El(q)))[i], maxd)>>]],
-          best |-> [q \in Qs |-> [i \in DOMAIN SortByW(q, El(q)) |-> LET t == SortByW(q, El(q))[i] IN IF Owner(str, maxd, minv, t) = q THEN t ELSE q]]])>>)
-====
+CONSTANTS Mode,      \* "enum" | "sim"
+          NQ, NT,    \* queries 101..100+NQ, tracks 1..NT
+          PerPair,   \* at most this many distances per (query, track)
+          WithNone,  \* TRUE: "no distance" entries are part of the alphabet
+          Sym,       \* TRUE: reduce by track symmetry
+          Only       \* "all" | "none": only streams with a no-distance entry | "none_or_last": ... or using track NT
+                     \* (keeps the enumeration runs of one check disjoint)
+VARIABLES stage, c
+vars == <<stage, c>>
+Qs == 101..(100 + NQ)
+Ts == 1..NT
+Dists == {1, 3, 5}
+MaxDs == {0, 1, 3, 4, 6}        \* below all / on a distance / on / between / above all
+Vals == IF WithNone THEN Dists \cup {-1} ELSE Dists
+Bags == {<<>>} \cup {<<a>> : a \in Vals} \cup (IF PerPair >= 2 THEN {bb \in {<<a, b>> : a \in Vals, b \in Vals} : bb[1] <= bb[2]} ELSE {})
+Code(b) == IF Len(b) = 0 THEN 0 ELSE IF Len(b) = 1 THEN 10 + b[1] + 1 ELSE 100 + 10 * (b[1] + 1) + b[2] + 1
+Ent(q, t, bag) == [i \in DOMAIN bag |-> [q |-> q, t |-> t, am |-> 0, fd |-> bag[i]]]
+RECURSIVE FlatT(_, _, _)
+FlatT(q, row, t) == IF t > NT THEN <<>> ELSE Ent(q, t, row[t]) \o FlatT(q, row, t + 1)
+RECURSIVE FlatQ(_, _)
+FlatQ(rows, q) == IF q > 100 + NQ THEN <<>> ELSE FlatT(q, rows[q], 1) \o FlatQ(rows, q + 1)
+
+Case(str, sc, maxd, minv, nmax) ==
+  LET x == Ctx(str, maxd, minv) IN
+  [kind |-> "vote", str |-> str, sc |-> sc, maxd |-> maxd, minv |-> minv,
+   topn |-> [N \in 1..nmax |-> [q \in x.Q |-> LET l == TopNC(x, N, q) IN [i \in DOMAIN l |-> <<l[i], x.w[q][l[i]]>>]]],
+   best |-> [q \in x.Q |-> LET l == ByWeightC(x, q, EligibleC(x, q))
+                                b == BestFitC(x, q) IN [i \in DOMAIN l |-> <<b[i], x.w[q][l[i]]>>]],
+   contest |-> IF ContestedC(x) THEN 1 ELSE 0,
+   cut |-> IF \E N \in 1..nmax : CutAtC(x, N) THEN 1 ELSE 0]
+Facts(str, maxd, minv, nmax) == LET x == Ctx(str, maxd, minv) IN BestFitFactsC(x) /\ \A N \in 1..nmax : TopNFactsC(x, N)
+Tf(str, maxd, minv) == TieFreeC(Ctx(str, maxd, minv))
+
+Init == stage = 0 /\ c = [kind |-> "init"]
+EnumNext ==
+  \/ /\ stage = 0 /\ stage' = 1
+     /\ \E row \in [Ts -> Bags] :
+          /\ Sym => \A t \in Ts : t > 1 => Code(row[t - 1]) <= Code(row[t])
+          /\ c' = [row |-> row]
+  \/ /\ stage = 1 /\ stage' = 2
+     /\ \E rest \in [Qs \ {101} -> [Ts -> Bags]], maxd \in MaxDs, minv \in 1..PerPair :
+          LET rows == [q \in Qs |-> IF q = 101 THEN c.row ELSE rest[q]]
+              str == FlatQ(rows, 101) IN
+          /\ Only = "none" => \E i \in DOMAIN str : str[i].fd = -1
+          /\ Only = "none_or_last" => \E i \in DOMAIN str : str[i].fd = -1 \/ str[i].t = NT
+          /\ Tf(str, maxd, minv)
+          /\ Assert(Facts(str, maxd, minv, NT), <<"C17 violated by the specification", str, maxd, minv>>)
+          /\ c' = Case(str, 8, maxd, minv, NT)
+
+(* ---- simulation: 6 x 6 pairs, <= 5 distances per pair, distances 0..400 or none; the case is emitted from the
+   single successor (ph 2 -> 0) of the state the simulator drew (TLC evaluates invariants on every candidate) *)
+SimLens == {8, 20, 40, 70, 110}
+SimMax == 110
+SQ == 101..106
+ST == 1..6
+SimNext ==
+  \/ /\ stage = 0 /\ stage' = 1
+     /\ \E maxd \in {50, 150, 250, 399}, minv \in 1..3 :
+          c' = [maxd |-> maxd, minv |-> minv, str |-> <<>>, ph |-> 0, q |-> 0, t |-> 0]
+  \/ /\ stage = 1 /\ Len(c.str) < SimMax /\ stage' = 1
+     /\ \/ /\ c.ph = 0
+           /\ \E q \in SQ, t \in ST :
+                /\ Cardinality({i \in DOMAIN c.str : c.str[i].q = q /\ c.str[i].t = t}) < 5
+                /\ c' = [c EXCEPT !.ph = 1, !.q = q, !.t = t]
+        \/ /\ c.ph = 1
+           /\ \E d \in (0..400) \cup {-1} : c' = [c EXCEPT !.ph = 2, !.str = Append(@, [q |-> c.q, t |-> c.t, am |-> 0, fd |-> d])]
+        \/ /\ c.ph = 2 /\ c' = [c EXCEPT !.ph = 0]
+Next == IF Mode = "enum" THEN EnumNext ELSE SimNext
+Spec == Init /\ [][Next]_vars
+Emit == IF Mode = "enum" THEN stage = 2 => PrintT(<<"REPLAY", ToJson(c)>>)
+        ELSE (stage = 1 /\ c.ph = 0 /\ Len(c.str) \in SimLens /\ Tf(c.str, c.maxd, c.minv)) =>
+               /\ Assert(Facts(c.str, c.maxd, c.minv, 6), "C17 violated by the specification (sim)")
+               /\ PrintT(<<"REPLAY", ToJson(Case(c.str, 1024, c.maxd, c.minv, 6))>>)
+(* reachability witnesses (TLC must violate them) *)
+W_NeverContested == stage = 2 => c.contest = 0
+W_NeverCut == stage = 2 => c.cut = 0
+=============================================================================
